@@ -80,8 +80,51 @@ FULL = z3.Full(z3.ReSort(z3.StringSort()))
 EPS = z3.Re(z3.StringVal(''))
 
 
+_IC = [False]
+
+
+def _cps_regex(cps):
+    cps = sorted(c for c in cps if c <= MAXCHAR)
+    parts = []
+    i = 0
+    while i < len(cps):
+        j = i
+        while j + 1 < len(cps) and cps[j + 1] == cps[j] + 1:
+            j += 1
+        parts.append(_range(cps[i], cps[j]))
+        i = j + 1
+    return _union(parts)
+
+
+def _charset_ic(items):
+    """IN node under re.IGNORECASE: exact sre semantics through vlib.casefold"""
+    from . import casefold
+    negate = False
+    members = set()
+    cats = []
+    for op, av in items:
+        if op is sc.NEGATE:
+            negate = True
+        elif op is sc.LITERAL:
+            members.add(av)
+        elif op is sc.RANGE:
+            if av[1] - av[0] > 4096:
+                raise Unsupported('wide range under IGNORECASE')
+            members.update(range(av[0], av[1] + 1))
+        elif op is sc.CATEGORY and str(av) in ('CATEGORY_DIGIT', 'CATEGORY_SPACE'):
+            cats.append(_union([_range(a, b) for a, b in category_ranges(str(av))]))   # case-invariant classes
+        else:
+            raise Unsupported('charset item %s under IGNORECASE' % (op,))
+    u = _union([_cps_regex(casefold.matching_chars(members))] + cats)
+    if negate:
+        return z3.Intersect(ANYCHAR, z3.Complement(u))
+    return u
+
+
 def _charset(items):
     """IN node -> z3 regex of single characters."""
+    if _IC[0]:
+        return _charset_ic(items)
     negate = False
     parts = []
     for op, av in items:
@@ -157,8 +200,14 @@ def _node(op, av, head, tail):
     """returns (regex, anchored_end).  When `tail` is true and the node is not
     end-anchored the caller appends FULL (prefix semantics)."""
     if op is sc.LITERAL:
+        if _IC[0]:
+            from . import casefold
+            return (_cps_regex(casefold.matching_chars([av])), False)
         return (_range(av, av), False)
     if op is sc.NOT_LITERAL:
+        if _IC[0]:
+            from . import casefold
+            return (z3.Intersect(ANYCHAR, z3.Complement(_cps_regex(casefold.matching_chars([av])))), False)
         return (z3.Intersect(ANYCHAR, z3.Complement(_range(av, av))), False)
     if op is sc.ANY:
         # '.' without DOTALL: anything but newline
@@ -200,10 +249,14 @@ def to_z3(pattern):
     """z3 regular language L with  s in L  <=>  pattern.match(s) is not None."""
     if isinstance(pattern, str):
         pattern = re.compile(pattern)
-    if pattern.flags & ~re.UNICODE:
+    if pattern.flags & ~(re.UNICODE | re.IGNORECASE):
         raise Unsupported('flags %r' % pattern.flags)
     tree = sp.parse(pattern.pattern, pattern.flags)
-    r, anchored = _seq(tree, True, True)
+    _IC[0] = bool(pattern.flags & re.IGNORECASE)
+    try:
+        r, anchored = _seq(tree, True, True)
+    finally:
+        _IC[0] = False
     if not anchored:
         r = z3.Concat(r, FULL)
     return r
